@@ -909,7 +909,7 @@ fn text_strategy() -> BoxedStrategy<TextCase> {
 }
 
 pub fn c31(s: &mut Session) -> Meta {
-  let cases = s.tier().pick(300_000, 30_000_000);
+  let cases = s.tier().pick(2_000_000, 30_000_000);
   s.run_part(Part::new("parsers", cases, text_strategy, text_check));
   Meta {
     level: "exploration",
@@ -1044,7 +1044,7 @@ fn amount_strategy() -> BoxedStrategy<AmountCase> {
 }
 
 pub fn c34(s: &mut Session) -> Meta {
-  let cases = s.tier().pick(200_000, 20_000_000);
+  let cases = s.tier().pick(3_000_000, 20_000_000);
   s.run_part(Part::new("amounts", cases, amount_strategy, amount_check));
   Meta {
     level: "exploration",
